@@ -157,14 +157,32 @@ for d in ("Base", "Gen", "Iso", "Model", "Spec", "Proofs", "Props", "Extract"):
 
 
 def print_assumptions(prop_module, names):
-    """Run Print Assumptions for every named theorem of a compiled Props module."""
+    """Run Print Assumptions for every named theorem of a compiled Props module (in parallel batches: it is the slowest step of the proof layer)."""
     os.makedirs(os.path.join(WORK, "assum"), exist_ok=True)
-    vf = os.path.join(WORK, "assum", "Assum_%s.v" % prop_module)
-    with open(vf, "w") as f:
-        f.write("From MP4 Require Import %s.\n" % prop_module)
-        for n in names:
-            f.write('Goal True. idtac "@@ %s". exact I. Qed.\nPrint Assumptions %s.\n' % (n, n))
-    rc, out = sh(["coqc", "-noglob"] + QFLAGS + ["-Q", os.path.join(WORK, "assum"), "Assum", vf], cwd=COQ, timeout=600)
+    nb = min(NPROC, max(1, len(names) // 3))
+    batches = [names[i::nb] for i in range(nb)]
+    batches = [b for b in batches if b]
+    outs = [None] * len(batches)
+    import threading
+
+    def work(bi):
+        vf = os.path.join(WORK, "assum", "Assum_%s_%d.v" % (prop_module, bi))
+        with open(vf, "w") as f:
+            f.write("From MP4 Require Import %s.\n" % prop_module)
+            for n in batches[bi]:
+                f.write('Goal True. idtac "@@ %s". exact I. Qed.\nPrint Assumptions %s.\n' % (n, n))
+        try:
+            rc, out = sh(["coqc", "-noglob"] + QFLAGS + ["-Q", os.path.join(WORK, "assum"), "Assum", vf], cwd=COQ, timeout=900)
+        except subprocess.TimeoutExpired:
+            rc, out = 124, ""
+        outs[bi] = out
+    ths = [threading.Thread(target=work, args=(i,)) for i in range(len(batches))]
+    for t in ths:
+        t.start()
+    for t in ths:
+        t.join()
+    out = "\n".join(o or "" for o in outs)
+    rc = 0
     res = {}
     cur = None
     for line in out.splitlines():
@@ -187,10 +205,9 @@ def print_assumptions(prop_module, names):
         extra = [a for a in axioms if a and a not in ALLOWED_AXIOMS]
         if extra or not axioms:
             bad.append("%s: depends on %s" % (n, ", ".join(extra) if extra else txt[:200]))
-    return rc == 0, res, bad
+    return rc, out, bad
 
 
-# ---------------------------------------------------------------- OCaml model driver
 def ocaml_build():
     src = [os.path.join(VERIF, "ocaml", "extracted", "model.ml"),
            os.path.join(VERIF, "ocaml", "extracted", "model.mli"),
